@@ -24,8 +24,13 @@ package fakeredis
 //     not wrap a transaction that propagates exactly one command ("the single command is
 //     atomic"); Redis < 7 (execCommandPropagateMulti) wraps as soon as one command is propagated.
 //     The double follows Options.Version unless PropagationOptions.WrapSingle overrides it.
-//     The SELECT a transaction needs is emitted before its MULTI (as propagate() does with the
-//     first command's dbid); a SELECT executed inside the transaction shows up inside the block.
+//     Where the SELECT a transaction needs goes depends on the version as well: Redis ≥ 7 feeds
+//     MULTI with dbid -1 ("we do not want to replicate SELECT. It'll be inserted together with the
+//     next command (inside the MULTI)"), so the lazy SELECT stands INSIDE the block in front of
+//     the first member; Redis < 7 (execCommandPropagateMulti(c->db->id)) emits it before MULTI.
+//     A SELECT executed by the client inside the transaction shows up inside the block in both.
+//   - the stream's current database is server.slaveseldb: -1 on a fresh stream and again whenever
+//     a replica attaches (ReplicaAttached), so the next propagated command is preceded by a SELECT.
 //
 // Not modelled: lazy-expiry DELs a master emits when a command finds a key expired (checks keep
 // TTLs far in the future), active expiry, eviction, script effects replication.
@@ -100,6 +105,9 @@ type PropagationOptions struct {
 	// +1 = always wrap a transaction that propagates at least one command, -1 = never wrap a
 	// transaction that propagates exactly one command.
 	WrapSingle int
+	// SelectInMulti: 0 = follow Options.Version (the lazy SELECT of a wrapped transaction stands
+	// inside the MULTI block iff major >= 7), +1 = inside, -1 = before MULTI.
+	SelectInMulti int
 }
 
 type propOp struct {
@@ -116,8 +124,9 @@ type propOp struct {
 
 // Propagation is the handle returned by EnablePropagation.
 type Propagation struct {
-	srv        *Server
-	wrapSingle bool
+	srv           *Server
+	wrapSingle    bool
+	selectInMulti bool
 
 	mu     sync.Mutex
 	base   int64
@@ -155,6 +164,14 @@ func (s *Server) EnablePropagation(opts ...PropagationOptions) *Propagation {
 	default:
 		p.wrapSingle = majorVersion(s.opt.Version) < 7
 	}
+	switch {
+	case o.SelectInMulti > 0:
+		p.selectInMulti = true
+	case o.SelectInMulti < 0:
+		p.selectInMulti = false
+	default:
+		p.selectInMulti = majorVersion(s.opt.Version) >= 7
+	}
 	s.mu.Lock()
 	s.prop = p
 	s.mu.Unlock()
@@ -177,6 +194,18 @@ func majorVersion(v string) int {
 		return 7
 	}
 	return n
+}
+
+// SelectsInMulti reports whether the lazy SELECT of a wrapped transaction stands inside the block.
+func (p *Propagation) SelectsInMulti() bool { return p.selectInMulti }
+
+// ReplicaAttached models a replica attaching to the master (PSYNC / full sync): the master
+// forgets the stream's current database (server.slaveseldb = -1), so the next propagated command
+// is preceded by a SELECT whatever the database.
+func (p *Propagation) ReplicaAttached() {
+	p.mu.Lock()
+	p.lastDB = -1
+	p.mu.Unlock()
 }
 
 // WrapsSingle reports whether a transaction that propagates exactly one command is wrapped.
@@ -309,7 +338,9 @@ func (p *Propagation) emit(ops []propOp, wrap bool) {
 		}
 	}
 	if wrap {
-		sel(ops[0].db, &ops[0])
+		if !p.selectInMulti {
+			sel(ops[0].db, &ops[0])
+		}
 		add(PropMulti, ops[0].db, [][]byte{[]byte("MULTI")}, &ops[0])
 		p.stats["multi_emitted"]++
 	} else if ops[0].txn != 0 {
